@@ -286,6 +286,12 @@ def run(ctx):
         from ..ctx import MachineryError
         raise MachineryError("model self-test: pre-fix block arithmetic was not rejected by TLC")
     ctx.extra["model_selftest"] = "pre-fix arithmetic (0 blocks) violates SerialAtReturn in %d states" % r.distinct
+    # par_reduce: pairwise tree reduction in any completion order = serial fold (free-monoid model)
+    ctx.model_check("C16_Reduce", "MC_reduce.cfg", name="par_reduce-tree", require_actions=("NextLevel",), workers=4)
+    r2 = T.run_tlc("C16_Reduce", "MC_reduce_mut.cfg", ctx.spec_dir, workers=2, allow_violation=True, scratch=ctx.scratch)
+    if r2.violated != "EqualsSerial":
+        from ..ctx import MachineryError
+        raise MachineryError("model self-test: carrying the odd item to the front must violate EqualsSerial")
 
     # 2. real partition functions on the grid
     if quick:
